@@ -138,7 +138,7 @@ package rle
 //@   verify[C04]
 //@   requires r != nil && dyn(in) == typeid("*bytes.Buffer") && payload(in) != 0
 //@   requires[C04] 1 <= r.bitWidth && r.bitWidth <= 4
-//@   modifies obj(in), rfault
+//@   modifies obj(in), rd
 //@   ensures freshOrNil(res0)
 //@   ensures[C10] err == nil ==> (rfault ==> old(rfault))
 //@ loop (*RLE).Read#1
@@ -154,7 +154,7 @@ package rle
 //@   requires[C04] width <= 4
 //@   free-requires header < 1099511627776
 //@   safety[C04] slice-bounds index makeslice-len
-//@   modifies obj(r), rfault
+//@   modifies obj(r), rd
 //@   ensures freshOrNil(res0)
 //@   ensures[C04] err == nil && width >= 1 ==> #res0 == (header / 2) * 8
 //@   ensures[C10] err == nil ==> (rfault ==> old(rfault))
@@ -169,30 +169,34 @@ package rle
 //@   requires dyn(r) == typeid("*bytes.Reader") && payload(r) != 0
 //@   free-requires header < 1099511627776
 //@   safety[C04] slice-bounds index makeslice-len
-//@   modifies obj(r), rfault
+//@   modifies obj(r), rd
 //@   ensures freshOrNil(res0)
 //@   ensures[C04] err == nil ==> #res0 == header / 2
+// every value of a repeated run is the run's value, whatever the run's length
+//@   ensures[C04] err == nil ==> (forall k in 0..#res0: res0[k] == lastRunVal)
 //@   ensures[C10] err == nil ==> (rfault ==> old(rfault))
 //@ loop readRLE#1
 //@   invariant freshsince(out) && (rfault ==> old(rfault))
 //@   invariant[C04] 0 <= i && #out == count && count == header / 2
+//@   invariant[C04] forall k in 0..i: k < #out ==> out[k] == value
 
 //@ func readIntLittleEndianPaddedOnBitWidth
 //@   requires dyn(in) == typeid("*bytes.Reader") && payload(in) != 0
-//@   modifies obj(in), rfault
+//@   modifies obj(in), rd
+//@   ghost-exit lastRunVal := res0
 //@   ensures[C10] err == nil ==> (rfault ==> old(rfault))
 //@ func readIntLittleEndianOnOneByte
 //@   requires dyn(in) == typeid("*bytes.Reader") && payload(in) != 0
-//@   modifies obj(in), rfault
+//@   modifies obj(in), rd
 //@   ensures[C10] err == nil ==> (rfault ==> old(rfault))
 //@ func readIntLittleEndianOnTwoBytes
 //@   requires dyn(in) == typeid("*bytes.Reader") && payload(in) != 0
-//@   modifies obj(in), rfault
+//@   modifies obj(in), rd
 //@   ensures[C10] err == nil ==> (rfault ==> old(rfault))
 
 //@ func readLEB128
 //@   requires dyn(r) == typeid("*bytes.Reader") && payload(r) != 0
-//@   modifies obj(r), rfault
+//@   modifies obj(r), rd
 //@   ensures[C10] err == nil ==> (rfault ==> old(rfault))
 //@ loop readLEB128#1
 //@   invariant freshsince(b) && (rfault ==> old(rfault))
